@@ -12,6 +12,12 @@ TRUST = ("trusted base: CPython, the `cryptography` primitives (AES/3DES/Camelli
 
 # id -> (category, technique, level text, level note, design ref)
 CHECKS = {
+    "C01": ("exploration", "end-to-end runtime monitoring: reference TLS sender with ground truth -> real run() per case in a forked child -> strict output oracle (stream equality) + in-process monitors on the real Decryptor state",
+            "Every frozen supported suite x every version it is valid for is driven end to end (462 combinations) plus hundreds/thousands of random "
+            "(handshake shape x record history x segmentation x addressing x options) cases per run; the oracle compares the reassembled exported streams with "
+            "the bytes the reference endpoints sent, while monitors check sequence-number and CBC-residue invariants on the real Decryptor. Held on the executions "
+            "observed, not for all histories.",
+            TRUST, "3/C01"),
     "C14": ("exploration", "runtime contract on the real split_cipher_suite, evaluated exhaustively over all 65 536 code points",
             "Exhaustive enumeration of the whole input space of the real function under a post-condition derived from an independent frozen "
             "IANA registry copy and an independent structural name parser; the space is finite so this run is complete for the function, and the "
